@@ -22,6 +22,7 @@ CHECKS = {
     "C08": ("c08", {}),
     "C18": ("c18", {}),
     "C14": ("c14", {}),
+    "C16": ("c16", {}),
 }
 
 
